@@ -273,6 +273,7 @@ class AreaBase:
     def observable(self, obj): return self.export(obj)
     def settings(self, cfg): return cfg[self.settings_key]
     def fresh_regs(self): return None   # list of the registers of a freshly constructed object
+    def fresh_registers(self): return None   # the Registers object of a freshly constructed area (None: not a single register file)
 
     def with_settings(self, cfg, settings):
         c = dict(cfg)
@@ -306,6 +307,7 @@ class PfrArea(AreaBase):
     def config(self, obj): return obj.get_config()
     def regs(self, obj): return obj.registers
     def fresh_regs(self): return self.cls(family=self.family, revision=self.rev).registers._registers
+    def fresh_registers(self): return self.cls(family=self.family, revision=self.rev).registers
 
 
 class SegArea(AreaBase):
@@ -328,6 +330,7 @@ class SegArea(AreaBase):
     def config(self, obj): return obj.get_config()
     def regs(self, obj): return obj.registers
     def fresh_regs(self): return self.cls(self.family, self.rev).registers._registers
+    def fresh_registers(self): return self.cls(self.family, self.rev).registers
 
 
 class FcbArea(AreaBase):
@@ -359,6 +362,7 @@ class FcbArea(AreaBase):
 
     def regs(self, obj): return obj.registers
     def fresh_regs(self): return self.cls(self.family, self.mt, self.rev).registers._registers
+    def fresh_registers(self): return self.cls(self.family, self.mt, self.rev).registers
 
 
 class XmcdArea(AreaBase):
@@ -438,6 +442,7 @@ class FuseArea(AreaBase):
     def config(self, obj): return obj.get_config()
     def regs(self, obj): return obj.fuse_regs
     def fresh_regs(self): return self.cls(self.family, self.rev).fuse_regs._registers
+    def fresh_registers(self): return self.cls(self.family, self.rev).fuse_regs
 
     def observable(self, obj):
         # the fuse map has no binary form in SPSDK (fuses are burnt word by word): the observable is the value of
@@ -476,6 +481,7 @@ class MemcfgArea(AreaBase):
     def config(self, obj): return obj.get_config()
     def regs(self, obj): return obj.regs
     def fresh_regs(self): return self._obj().regs._registers
+    def fresh_registers(self): return self._obj().regs
 
     def observable(self, obj):
         # the configuration carries (by design) only the option words that count for the current settings
@@ -806,6 +812,8 @@ def _chain(A, o1, inp, rec, kind, expect, settings, cfg, rng, keys):
         if regs1 is not None:
             lay1 = live_layout(regs1)
             lay1 = None if lay1 == rec.layout else lay1
+            if lay1 is None and kind != "xmcd":
+                _cfg_item(A, regs1, inp, rec)
             rec.model.append({"op": "export", "vals": raw_values(regs1), "bytes": b1.hex(), "inp": list(map(str, inp)), "layout": lay1,
                               "size": A.img_size, "fill": A.img_fill})
         # own parser (+ verifier), export again
@@ -946,6 +954,35 @@ def _xmcd_sequence(A, b1, inp, rec, rng):
     c = pyres(lambda: o.crc)
     E(c == ("ok", crc32_mpeg(b2).to_bytes(4, "big")), sinp, "XMCD CRC after a change on the same object is not the CRC of the new export", c)
     E((int.from_bytes(b2[:4], "little") & 0xFFF) == len(b2), sinp, "XMCD size field does not give the size after the change")
+
+
+def _cfg_item(A, regs1, inp, rec):
+    """Registers.get_config() of the loaded object in a neutral form (names, enum name or number) and the raw values after loading it
+    into a fresh register file: for the correspondence with Regs.getConfig / nameCfg / resolveCfg / Regs.loadConfig on the generated tables"""
+    from spsdk.utils.misc import value_to_int
+    r = pyres(regs1.get_config)
+    if r[0] != "ok":
+        return
+    out = []
+    for reg_name, val in r[1].items():
+        reg = regs1.find_reg(reg_name, include_group_regs=True)
+        if isinstance(val, dict):
+            fs = []
+            for bf_name, bv in val.items():
+                bf = reg.find_bitfield(bf_name)
+                if isinstance(bv, str) and bv in bf.get_enum_names():
+                    fs.append([bf_name, "n", bv])
+                else:
+                    fs.append([bf_name, "v", value_to_int(bv)])
+            out.append([reg_name, "F", fs])
+        else:
+            out.append([reg_name, "V", int(val, 16) if isinstance(val, str) else int(val)])
+    fresh = pyres(A.fresh_registers)
+    rt = None
+    if fresh[0] == "ok" and fresh[1] is not None:
+        lr = pyres(fresh[1].load_yml_config, json.loads(json.dumps(r[1])))
+        rt = ("ok:" + _csv(raw_values(fresh[1]))) if lr[0] == "ok" else lr[0]
+    rec.model.append({"op": "cfg", "vals": raw_values(regs1), "cfg": out, "rt": rt, "inp": list(map(str, inp))})
 
 
 def _parser_items(A, b1, inp, rec, rng, op, parse):
@@ -1570,6 +1607,33 @@ def _correspondence(ck, drv, cases, recs):
                     cur = ("sel", idx)
                 lines.append(f"ow {_csv(it['vals'])}")
                 expect.append(it["res"])
+            elif it["op"] == "cfg":
+                det = dmeta[idx]
+                names = det["names"]
+                eligible = (all(r[4] == 0 for r in det["regs"]) and len({r[1] for r in det["regs"]}) == len(det["regs"])
+                            and all(len({f[4] for f in r[5]}) == len(r[5]) for r in det["regs"]))
+                if not eligible:
+                    continue
+                if cur != ("sel", idx):
+                    lines.append(f"sel {idx}")
+                    expect.append(f"ok {layouts[idx]['nregs']}")
+                    inputs.append((cid, "select"))
+                    cur = ("sel", idx)
+                ents = []
+                for reg_name, k, v in it["cfg"]:
+                    if k == "V":
+                        ents.append(f"{names.index(reg_name)}=V{v}")
+                    else:
+                        ents.append(f"{names.index(reg_name)}=" + "{" + ",".join(
+                            f"{names.index(fn)}:" + (f"n{names.index(x)}" if t == "n" else f"v{x}") for fn, t, x in v) + "}")
+                lines.append(f"getcfg {_csv(it['vals'])}")
+                expect.append("ok:" + ";".join(ents))
+                inputs.append(inp + ("get_config",))
+                if it["rt"] is not None:
+                    lines.append(f"rtcfg {_csv(it['vals'])}")
+                    expect.append(it["rt"])
+                    inputs.append(inp + ("load(get_config)",))
+                continue
             elif it["op"] == "enumval":
                 if cur != ("sel", idx):
                     lines.append(f"sel {idx}")
